@@ -23,8 +23,9 @@
        WRetryWake i   after the retry interval: status := none, unconditionally (:187)
        WRepeatWake i  after the repeat interval: back to the loop test
        WFinish i      running -> finished (:213), worker gone
-       WStaleFinish i only when Schedule was called with done == nil: the worker that set status none at :187
-                      falls through to :213 and flips a *relaunched* running node to finished
+       (the worker that handed a retried node back to the loop returns at once - since fix f9e55a3 also when Schedule
+        was called with done == nil; before, it fell through to :213 and could flip the relaunched attempt to finished:
+        findings/C01-done-nil-stale-flip.json.  The node field `stale` is a leftover of that transition, always 0.)
      Signal (:291-312, node.go:244-259)
        SigFlag        cancel flag set; the per-node pass is queued
        SigNode k      next node of the pass: repeat steps skipped, running -> canceled; k = Kill forwarded to the executor
@@ -76,7 +77,7 @@ Inductive label :=
 | LMark (i d : nat) | LCommit (i : nat) | LLaunch (i : nat) | LSkipPre (i : nat) | LExit
 | WSetupFail (i : nat) | WTest (i : nat) | WSkipExec (i : nat) | WExecStart (i : nat) | WDryExec (i : nat)
 | WExecRefused (i : nat) | WExecEnd (i : nat) (ok : bool) | WAfter (i : nat) (early : bool)
-| WRetryWake (i : nat) | WRepeatWake (i : nat) | WFinish (i : nat) | WStaleFinish (i : nat)
+| WRetryWake (i : nat) | WRepeatWake (i : nat) | WFinish (i : nat)
 | SigFlag | SigNode (k : bool) | Timeout
 | HBegin | HStart (h : handler) | HEnd (h : handler) (ok : bool) | HSkip (h : handler) | HRefused (h : handler) | HFinish.
 
@@ -155,7 +156,9 @@ Definition graph_running (s : state) : bool := existsb (fun j => is_running (nd 
 Definition overall (s : state) : ostatus :=
   if canceled s && negb (is_succeed s) then OCancel
   else if graph_running s then ORunning
-  else if lasterr s then OError else OSuccess.
+  else if lasterr s then OError
+  else if negb (all_terminal s) then ORunning      (* fix b9e9fa2 (F8a): a node not started yet => still running *)
+  else OSuccess.
 Definition handlers_for (s : state) : list handler :=
   filter (hon c)
     ((match overall s with OSuccess => [HSuccess] | OError => [HFailure] | OCancel => [HCancel] | _ => [] end) ++ [HExit]).
@@ -261,7 +264,7 @@ Definition step (s : state) (l : label) : option state :=
       | PRetryWait =>
           if i <? n
           then Some (set_nd s i {| st := NNone; rc := rc (nd s i); dc := S (dc (nd s i)); att := att (nd s i);
-                                   ph := PIdle; stale := (if donech c then stale (nd s i) else S (stale (nd s i)));
+                                   ph := PIdle; stale := stale (nd s i);
                                    outs := outs (nd s i) |}) else None
       | _ => None end
   | WRepeatWake i =>
@@ -274,13 +277,6 @@ Definition step (s : state) (l : label) : option state :=
                  then Some (set_nd s i (with_ph (with_st (nd s i)
                                 (match st (nd s i) with NRunning => NSuccess | v => v end)) PGone)) else None
       | _ => None end
-  | WStaleFinish i =>
-      match stale (nd s i) with
-      | S k => if i <? n
-               then Some (set_nd s i {| st := (match st (nd s i) with NRunning => NSuccess | v => v end);
-                                        rc := rc (nd s i); dc := dc (nd s i); att := att (nd s i);
-                                        ph := ph (nd s i); stale := k; outs := outs (nd s i) |}) else None
-      | O => None end
   | SigFlag =>
       match sigleft s with
       | S k => Some {| nd := nd s; canceled := true; lasterr := lasterr s; timedout := timedout s; pc := pc s;
